@@ -3,11 +3,18 @@ import Driver.Util
 namespace Driver.C19
 open Paloma.Mempool
 
-/-- driver state: the model pool -/
+/-- driver state: the model pool and the iterator in use, if any (`iopen` / `inext`) -/
 structure State where
   pool : Pool
+  it   : Option LiveIter := none
 
-def init : State := ⟨Pool.empty⟩
+def init : State := ⟨Pool.empty, none⟩
+
+def showYield : Yield → String
+  | .none => "it none"
+  | .nil => "it nil"
+  | .panic => "it panic"
+  | .tx t => s!"it {t.sender}:{t.nonce}:{t.id}"
 
 def showTxs (l : List Tx) : String :=
   if l.isEmpty then "-" else ",".intercalate (l.map fun t => s!"{t.sender}:{t.nonce}:{t.id}")
@@ -21,7 +28,12 @@ def showTxs (l : List Tx) : String :=
   `seln <k>`                                      → `part <sender:nonce:id,…|-> <end|more|panic>`
                                                     (`Select`, then at most `k` × `Tx()`/`Next()`)
   `ctxprio`                                       → `<priority>`            (`TxFeeSkipper`)
-  `count`                                         → `<count>` -/
+  `count`                                         → `<count>`
+  `iopen`                                         → `it <sender:nonce:id>` | `it nil` | `it panic`
+                                                    (`Select`; the iterator stays in use)
+  `inext`                                         → the same after one `Next()` of the iterator in use
+                                                    (`it none` if there is none); every other op
+                                                    may come between two of these -/
 def step (st : State) (args : List String) : State × String :=
   match args with
   | ["reset"] => (init, "ok")
@@ -33,26 +45,33 @@ def step (st : State) (args : List String) : State × String :=
   | ["insert", s, n, c, id, urls] =>
     match parseNat? n, parseInt? c, parseNat? id with
     | some n, some c, some id =>
-      let mp := st.pool.step (TxOp.insert s n (splitList urls) c id).toOp
-      (⟨mp⟩, s!"ok {mp.count}")
+      let r := (LState.mk st.pool st.it).step (.pool (TxOp.insert s n (splitList urls) c id).toOp)
+      (⟨r.1.pool, r.1.it⟩, s!"ok {r.1.pool.count}")
     | _, _, _ => (st, "bad-op")
   | ["remove", s, n] =>
     match parseNat? n with
     | some n =>
       let r := st.pool.remove s n
-      (⟨r.1⟩, (if r.2 then "ok " else "notfound ") ++ toString r.1.count)
+      (⟨r.1, st.it.map (fun it => it.onRemove st.pool s n)⟩,
+        (if r.2 then "ok " else "notfound ") ++ toString r.1.count)
     | none => (st, "bad-op")
   | ["select"] =>
     let r := st.pool.select
-    (⟨r.1⟩, (if r.2.2 then "panic " else "sel ") ++ showTxs r.2.1)
+    (⟨r.1, st.it.map (fun it => it.onSelect st.pool)⟩, (if r.2.2 then "panic " else "sel ") ++ showTxs r.2.1)
   | ["seln", k] =>
     match parseNat? k with
     | some k =>
       let r := st.pool.selectN k
       let status := if r.2.2.isPanic then "panic" else if r.2.2.isDone then "end" else "more"
-      (⟨r.1⟩, s!"part {showTxs r.2.1} {status}")
+      (⟨r.1, st.it.map (fun it => it.onSelect st.pool)⟩, s!"part {showTxs r.2.1} {status}")
     | none => (st, "bad-op")
   | ["count"] => (st, toString st.pool.count)
+  | ["iopen"] =>
+    let r := (LState.mk st.pool st.it).step .iopen
+    (⟨r.1.pool, r.1.it⟩, showYield r.2)
+  | ["inext"] =>
+    let r := (LState.mk st.pool st.it).step .inext
+    (⟨r.1.pool, r.1.it⟩, showYield r.2)
   | _ => (st, "bad-op")
 
 end Driver.C19
